@@ -10,7 +10,7 @@ LAll == {<<>>, <<"comp", "rle">>, <<"comp", "deflate">>, <<"comp", "skphuff">>, 
          <<"chunk", 2, 1, "nt", "int16">>, <<"comp", "deflate", "nt", "float32">>}
 Ev(o, a, x) == [op |-> o, args |-> a, out |-> x]
 FullN == W' * H' * NC'
-Audit == <<Ev("Reopen", [a |-> 0], [ret |-> 0, ncomp |-> NC', il |-> 0, w |-> W', h |-> H'])>>
+Audit == IF ~touched' THEN <<>> ELSE <<Ev("Reopen", [a |-> 0], [ret |-> 0, ncomp |-> NC', il |-> 0, w |-> W', h |-> H'])>>
          \o (IF touched' THEN
              <<Ev("Read", [x |-> 0, y |-> 0, sx |-> 1, sy |-> 1, cw |-> W', ch |-> H'],
                   [ret |-> 0, data |-> [i \in 1..FullN |-> pix'[Target(0, i, 0, 0, 1, 1, W', H', NC')]]])>> ELSE <<>>)
